@@ -1111,10 +1111,12 @@ class MoneyConverter:
             raise ValueError('Different types of validity periods given.')
         # update internal dict
         base_currency = self._base_currency
-        it = (((validity, term_currency),
-               ExchangeRate(base_currency, unit_multiple, term_currency,
-                            term_amount))
-              for term_currency, term_amount, unit_multiple in rate_specs)
+        rates = (ExchangeRate(base_currency, unit_multiple, term_currency,
+                              term_amount)
+                 for term_currency, term_amount, unit_multiple in rate_specs)
+        # term currencies may be given as ISO codes, so use the currency
+        # held by the exchange rate as key
+        it = (((validity, rate.term_currency), rate) for rate in rates)
         self._rate_dict.update(it)
 
     def get_rate(self, unit_currency: Currency, term_currency: Currency,
